@@ -13,6 +13,7 @@ Actions (plain and generator handlers):
   ['raise'] / ['raise','base'] raise Boom(Exception) / BoomBase(BaseException)
   ['ret', tag]                return a unique non-None value (ends the body)
   ['retfire', evspec]         return self.fire(event): the Value of a nested event (ends the body)
+  ['firechild', suffix]       self.fire(event.child(suffix)): an event named <name>_<suffix> derived from the one being handled
   ['retnone']                 return None
   ['retlit', v] / ['yieldlit', v]  return / yield the literal v (falsy but non-None values: 0, False, '', 0.0)
   ['stopmgr', code]           self.stop(code)          (C08)
@@ -237,6 +238,21 @@ class World:
             tag = 'v%d.%d.%s' % (uid, hid, act[1])
             self.L('P', uid, hid, tag)
             return ('ret', tag)
+        elif k == 'firechild':
+            # self.fire(event.child('<suffix>')): an event derived from the one being handled (as circuits.web does with its request events)
+            if self.nuid >= self.prog.get('max_events', 600):
+                return None
+            e = event.child(act[1])
+            self.nuid += 1
+            cu = self.nuid
+            e._vuid = cu
+            self.events[cu] = {'name': e.name, 'prio': 0, 'parent': uid, 'by': hid, 'flags': {}, 'dispatched': 0, 'cancelled': False,
+                               'flush_depth_at_fire': self.flush_depth, 'spec': {'name': e.name}, 'derived': True}
+            self.objs[cu] = e
+            self.events[cu]['fired_at'] = self.L('F', cu, uid, hid, 0)
+            comp.fire(e)
+            self.L('FR', cu)
+            fired.append(cu)
         elif k == 'retfire':
             # the nested-value idiom: return the Value of an event fired by this handler (tests/core/test_value.py)
             if self.nuid >= self.prog.get('max_events', 600):
@@ -283,11 +299,20 @@ class World:
 
     def _sys_uid(self, event):
         """started/stopped events handled by program handlers get a ghost uid on first sight."""
+        parent = None
         if event.name not in ('started', 'stopped'):
-            return None
+            # feedback events (<name>_failure, <name>_success, ...) that the program declares handlers for: children of the event they
+            # are about - what their handlers fire belongs to that event's consequences
+            par = getattr(event, 'parent', None)
+            puid = getattr(par, '_vuid', None)
+            if puid is None or not event.name.startswith(par.name + '_'):
+                return None
+            # <name>_failure is fired while the failing handler's event is being handled (its handlers' events are consequences of that
+            # event: circuits.web answers errors that way); <name>_success / _complete / _done are notifications ABOUT a finished event
+            parent = puid if event.name == par.name + '_failure' else None
         self.nuid += 1
         event._vuid = self.nuid
-        self.events[self.nuid] = {'name': event.name, 'prio': 0, 'parent': None, 'by': None, 'flags': {}, 'dispatched': 1,
+        self.events[self.nuid] = {'name': event.name, 'prio': 0, 'parent': parent, 'by': None, 'flags': {}, 'dispatched': 1,
                                   'cancelled': False, 'flush_depth_at_fire': 0, 'spec': {'name': event.name}, 'system': True}
         self.objs[self.nuid] = event
         return self.nuid
